@@ -324,6 +324,27 @@ impl<M: Math> TransformedPoint<M> {
     }
 }
 
+#[cfg(nuts_rs_verif)]
+impl<M: Math> TransformedPoint<M> {
+    pub fn verif_parts(&self, math: &mut M) -> crate::verif::PointParts {
+        crate::verif::PointParts {
+            position: math.box_array(&self.untransformed_position).into_vec(),
+            gradient: math.box_array(&self.untransformed_gradient).into_vec(),
+            transformed_position: math.box_array(&self.transformed_position).into_vec(),
+            transformed_gradient: math.box_array(&self.transformed_gradient).into_vec(),
+            velocity: math.box_array(&self.velocity).into_vec(),
+            index_in_trajectory: self.index_in_trajectory,
+            logp: self.logp,
+            logdet: self.logdet,
+            kinetic_energy: self.kinetic_energy,
+            energy: self.energy(),
+            initial_energy: self.initial_energy,
+            transform_id: self.transform_id,
+            step_size_factor: self.step_size_factor,
+        }
+    }
+}
+
 impl<M: Math> Point<M> for TransformedPoint<M> {
     fn position(&self) -> &<M as Math>::Vector {
         &self.untransformed_position
